@@ -65,6 +65,7 @@ type smtSession struct {
 	in  io.WriteCloser
 	out *bufio.Reader
 	log bytes.Buffer
+	kill *time.Timer
 }
 
 func newSession(timeoutS int) (*smtSession, error) {
@@ -81,10 +82,20 @@ func newSession(timeoutS int) (*smtSession, error) {
 	if err := cmd.Start(); err != nil {
 		return nil, err
 	}
-	return &smtSession{cmd: cmd, in: in, out: bufio.NewReaderSize(out, 1<<20)}, nil
+	// hard wall-clock bound for the whole session: -t bounds one check-sat, not model construction, and a
+	// read from a wedged solver never returns
+	total := 2 * timeoutS
+	if total < 45 {
+		total = 45
+	}
+	kill := time.AfterFunc(time.Duration(total)*time.Second, func() { cmd.Process.Kill() })
+	return &smtSession{cmd: cmd, in: in, out: bufio.NewReaderSize(out, 1<<20), kill: kill}, nil
 }
 
 func (s *smtSession) close() {
+	if s.kill != nil {
+		s.kill.Stop()
+	}
 	s.in.Close()
 	done := make(chan struct{})
 	go func() { s.cmd.Wait(); close(done) }()
